@@ -25,9 +25,12 @@ import (
 	"example.com/scion-time/net/nts"
 	"example.com/scion-time/net/ntske"
 
+	"github.com/scionproto/scion/pkg/addr"
+
 	"verif/internal/ev"
 	"verif/internal/netlab"
 	"verif/internal/vt"
+	"verif/internal/wire"
 )
 
 var (
@@ -36,6 +39,15 @@ var (
 	sock     *net.UDPConn // the sender
 	other    *net.UDPConn // same address, another port: must never receive anything
 	sentSeq  uint32
+
+	// SCION transport: the same probes wrapped into SCION/UDP packets for the SCION listener
+	transport   = "ip"
+	scionSrvIP  = netlab.Addr(4)
+	scionPort   = 12391
+	hop         *net.UDPConn // the "previous hop": sends the SCION packets and must get the replies
+	scionSrcIA  = addr.MustIAFrom(1, 0xff0000000111)
+	scionDstIA  = addr.MustIAFrom(2, 0xff0000000222)
+	scionSrcPrt = uint16(40123)
 )
 
 func TestMain(m *testing.M) {
@@ -45,9 +57,12 @@ func TestMain(m *testing.M) {
 	provider = ntske.NewProvider()
 	srvAddr = netlab.UDPAddr(netlab.Addr(0), 12390)
 	server.StartIPServer(context.Background(), log, srvAddr, 0, provider)
+	server.StartSCIONServer(context.Background(), log, "", netlab.UDPAddr(scionSrvIP, scionPort), 0, provider)
 	var err error
 	if sock, err = net.ListenUDP("udp", netlab.UDPAddr(netlab.Addr(1), 0)); err == nil {
-		other, err = net.ListenUDP("udp", netlab.UDPAddr(netlab.Addr(1), 0))
+		if other, err = net.ListenUDP("udp", netlab.UDPAddr(netlab.Addr(1), 0)); err == nil {
+			hop, err = net.ListenUDP("udp", netlab.UDPAddr(netlab.Addr(2), 0))
+		}
 	}
 	if err != nil {
 		fmt.Println("VERIF-INCONCLUSIVE: cannot bind sender sockets:", err)
@@ -122,12 +137,116 @@ func shouldReply(p []byte, trailingValidNTS bool) bool {
 
 type probeResult struct {
 	replies [][]byte
-	lost    bool // sentinel never answered
+	lost    bool   // sentinel never answered
+	bad     string // SCION: a reply that is not addressed back to the sender over the reversed path
+}
+
+// scionWrap puts an NTP payload into a SCION/UDP packet from the harness's end host to the listener.
+func scionWrap(payload []byte, pathSeed uint64) ([]byte, wire.PathSpec) {
+	ps := wire.PathSpec{Kind: "empty", Seed: pathSeed}
+	dst := scionSrcIA
+	if pathSeed%3 != 0 {
+		ps.Kind = "scion"
+		ps.SegLens = []int{1 + int(pathSeed%5)}
+		ps.ConsDir = []bool{pathSeed%2 == 0}
+		if pathSeed%7 == 0 {
+			ps.SegLens = []int{2, 1 + int(pathSeed%4)}
+			ps.ConsDir = []bool{true, false}
+		}
+		for i, l := range ps.SegLens { // at the last hop field
+			ps.CurrINF = i
+			ps.CurrHF += l
+		}
+		ps.CurrHF--
+		dst = scionDstIA
+	}
+	pth, err := ps.SlayersPath()
+	if err != nil {
+		panic(fmt.Sprintf("harness: path %+v: %v", ps, err))
+	}
+	pkt := wire.Pkt{SrcIA: scionSrcIA, DstIA: dst, Src: netlab.Addr(1), Dst: scionSrvIP, Path: pth, SrcPort: scionSrcPrt, DstPort: uint16(scionPort), Payload: payload}
+	raw, err := pkt.Serialize(nil, nil)
+	if err != nil {
+		panic(fmt.Sprintf("harness: serialize: %v", err))
+	}
+	return raw, ps
+}
+
+// probeSCION is probe over the SCION listener: replies are the UDP payloads of the SCION packets that came
+// back to the previous hop before the sentinel's reply.
+func probeSCION(p []byte) probeResult {
+	var res probeResult
+	buf := make([]byte, 16384)
+	for {
+		hop.SetReadDeadline(time.Now().Add(time.Millisecond))
+		if _, _, err := hop.ReadFromUDP(buf); err != nil {
+			break
+		}
+	}
+	dstAddr := netlab.UDPAddr(scionSrvIP, scionPort)
+	sentSeq++
+	raw, ps := scionWrap(p, mix(uint64(sentSeq)+uint64(len(p))))
+	if len(raw) <= 9000 {
+		hop.WriteToUDP(raw, dstAddr)
+	}
+	for attempt := 0; attempt < 6; attempt++ {
+		sentSeq++
+		var s ntp.Packet
+		s.SetVersion(4)
+		s.SetMode(ntp.ModeClient)
+		s.TransmitTime = ntp.Time64{Seconds: 0xfeed0000 | sentSeq>>16, Fraction: sentSeq<<16 | 0xbeef}
+		sb := make([]byte, 48)
+		ntp.EncodePacket(&sb, &s)
+		sraw, _ := scionWrap(sb, 0)
+		hop.WriteToUDP(sraw, dstAddr)
+		deadline := time.Now().Add(time.Duration(300*(attempt+1)) * time.Millisecond)
+		for {
+			hop.SetReadDeadline(deadline)
+			n, from, err := hop.ReadFromUDP(buf)
+			if err != nil {
+				break
+			}
+			q, err := wire.Parse(bytes.Clone(buf[:n]))
+			if err != nil || !q.IsUDP {
+				res.replies = append(res.replies, []byte(fmt.Sprintf("not a SCION/UDP packet (%v): %x", err, buf[:min(n, 64)])))
+				continue
+			}
+			d := q.UDP.Payload
+			if len(d) >= 48 && binary.BigEndian.Uint32(d[24:]) == s.TransmitTime.Seconds && binary.BigEndian.Uint32(d[28:]) == s.TransmitTime.Fraction {
+				return res
+			}
+			if len(d) >= 48 && binary.BigEndian.Uint32(d[24:])&0xffff0000 == 0xfeed0000 && d[30] == 0xbe && d[31] == 0xef {
+				continue
+			}
+			// addressing of the reply to the probe: from the listener, source and destination exchanged
+			src, _ := q.SrcAddr()
+			dst, _ := q.DstAddr()
+			wantDstIA := scionSrcIA
+			wantSrcIA := scionSrcIA
+			if ps.Kind != "empty" {
+				wantSrcIA = scionDstIA
+			}
+			switch {
+			case !from.IP.Equal(dstAddr.IP) || from.Port != dstAddr.Port:
+				res.bad = "reply sent from " + from.String()
+			case q.SCION.DstIA != wantDstIA || q.SCION.SrcIA != wantSrcIA || src.Unmap() != scionSrvIP || dst.Unmap() != netlab.Addr(1):
+				res.bad = fmt.Sprintf("reply addressed %v,%v -> %v,%v", q.SCION.SrcIA, src, q.SCION.DstIA, dst)
+			case q.UDP.SrcPort != uint16(scionPort) || q.UDP.DstPort != scionSrcPrt:
+				res.bad = fmt.Sprintf("reply ports %d -> %d", q.UDP.SrcPort, q.UDP.DstPort)
+			}
+			res.replies = append(res.replies, bytes.Clone(d))
+		}
+	}
+	res.lost = true
+	return res
 }
 
 // probe sends p followed by a sentinel from the same socket and returns the datagrams received before the
 // sentinel's reply (replies are FIFO per socket pair: same 4-tuple => same listener goroutine).
 func probe(p []byte) probeResult {
+	if transport == "scion" {
+		return probeSCION(p)
+	}
 	var res probeResult
 	drain()
 	if _, err := sock.WriteToUDP(p, srvAddr); err != nil && len(p) <= 65000 {
@@ -206,6 +325,9 @@ func judge(t failer, p []byte, validNTS bool, info *ntsInfo, what string) {
 	if res.lost {
 		t.Fatalf("%s (%d bytes, first byte %#02x): the following well-formed request on the same socket was not answered within 6 attempts", what, len(p), first(p))
 	}
+	if res.bad != "" {
+		t.Fatalf("%s: %s", what, res.bad)
+	}
 	if len(res.replies) != want {
 		t.Fatalf("%s (%d bytes, first byte %#02x LI=%d VN=%d mode=%d): %d replies, expected %d", what, len(p), first(p), first(p)>>6, first(p)>>3&7, first(p)&7, len(res.replies), want)
 	}
@@ -253,7 +375,19 @@ var kinds = []string{"none", "zeros", "random", "nts-valid", "nts-bitflip", "nts
 
 var recGrid = ev.New("c09/grid", "enumeration of every first header byte (256: all LI x VN x mode) x datagram length {0,1,47,48,49,52,75,76,77,100,1024,2047,2048,2049,4000} x trailing data {zero bytes, mixer bytes} plus, per first byte, well-formed NTS requests (cookie sealed under the server's current key, 1..6 placeholders), NTS requests with one flipped bit, with a cookie sealed under a foreign key and authenticated under a foreign C2S key; remaining 47 header bytes from a deterministic mixer of VERIF_SEED. Each probe is followed by a sentinel request from the same socket; the datagrams received before the sentinel's reply are the replies to the probe. Oracle: number of replies == shouldReply(p) (written from the statement), reply from the server's address/port to the sending socket, echoing the transmit timestamp, VN 4 / mode 4 / stratum 1 (so the reply is itself not answerable), NTS replies authenticate under S2C with the request identifier; a second socket on the sender's address receives nothing. Non-trivial: probes of >= 48 bytes; distinct by (first byte, length, trailing kind); the grid is enumerated completely (quick: a third of the first bytes per run, rotating with VERIF_SEED; thorough: all)")
 
-func TestExhaustiveGrid(t *testing.T) {
+func TestExhaustiveGrid(t *testing.T) { gridBody(t, recGrid, lengths) }
+
+var recGridS = ev.New("c09/grid-scion", "the c09/grid enumeration sent to the SCION listener instead: every probe is the UDP payload of a SCION packet (empty path, or 1..2-segment SCION paths of varying length at their last hop) from a harness end host, sent from a 'previous hop' socket; lengths {0,1,47,48,49,52,75,76,77,100,1024,1300}. Same oracle on the unwrapped replies; in addition every reply must come from the listener's socket to the previous hop with ISD-AS, host and ports exchanged. Non-trivial / distinct as for c09/grid")
+
+var lengthsSCION = []int{0, 1, 47, 48, 49, 52, 75, 76, 77, 100, 1024, 1300}
+
+func TestExhaustiveGridSCION(t *testing.T) {
+	transport = "scion"
+	defer func() { transport = "ip" }()
+	gridBody(t, recGridS, lengthsSCION)
+}
+
+func gridBody(t *testing.T, recGrid *ev.Recorder, lengths []int) {
 	seed := uint64(vt.Seed())
 	var n, nt int64
 	complete := vt.Thorough()
@@ -336,7 +470,7 @@ func TestExhaustiveGrid(t *testing.T) {
 	// nothing may ever arrive at another port of the sender's address
 	other.SetReadDeadline(time.Now().Add(50 * time.Millisecond))
 	buf := make([]byte, 2048)
-	if k, from, err := other.ReadFromUDP(buf); err == nil {
+	if k, from, err := other.ReadFromUDP(buf); err == nil && transport == "ip" {
 		vt.Violation(t, map[string]any{"bytes": k, "from": from.String()}, "a datagram was sent to a port that never sent a request")
 	}
 	recGrid.Exhaustive = complete
@@ -358,9 +492,19 @@ func findAuth(p []byte) int {
 
 var recRnd = ev.New("c09/random-headers", "rapid: arbitrary 48-byte headers (boundary patterns: all 0x00, all 0xff, a server reply fed back, a reply to a reply), arbitrary lengths 0..2100 with arbitrary trailing bytes, same sentinel-delimited oracle. Non-trivial: len >= 48; distinct by datagram hash")
 
-func TestPropRandomProbes(t *testing.T) {
+func TestPropRandomProbes(t *testing.T) { randomBody(t, recRnd, 1500, 15000) }
+
+var recRndS = ev.New("c09/random-headers-scion", "as c09/random-headers, sent to the SCION listener (wrapped as in c09/grid-scion), lengths 0..2100")
+
+func TestPropRandomProbesSCION(t *testing.T) {
+	transport = "scion"
+	defer func() { transport = "ip" }()
+	randomBody(t, recRndS, 600, 6000)
+}
+
+func randomBody(t *testing.T, recRnd *ev.Recorder, nq, nt int) {
 	var lastReply []byte
-	vt.Check(t, 1500, 15000, func(t *rapid.T) {
+	vt.Check(t, nq, nt, func(t *rapid.T) {
 		var p []byte
 		switch rapid.IntRange(0, 5).Draw(t, "kind") {
 		case 0:
@@ -391,6 +535,9 @@ func TestPropRandomProbes(t *testing.T) {
 		want := 0
 		if shouldReply(p, false) {
 			want = 1
+		}
+		if res.bad != "" {
+			t.Fatalf("probe %x...: %s", p[:min(len(p), 48)], res.bad)
 		}
 		if len(res.replies) != want {
 			t.Fatalf("probe %x...: %d replies, expected %d", p[:min(len(p), 48)], len(res.replies), want)
